@@ -49,11 +49,11 @@ def run(ctx):
         r = ctx.tlc(SPEC, "Registry", cfg=cfg, coverage=True, label=cfg, timeout=ctx.pick(600, 3000))
         require_actions(ctx, r, MC_ACTIONS[fl], cfg)
         # 2. behaviours of the model replayed on the real registry
-        g = ctx.tlc(SPEC, "Gen_Registry", cfg="Gen_" + fl, mode="simulate", num=ctx.pick(25 if fl == "tbtc" else 10, 250 if fl == "tbtc" else 100), depth=100,
+        g = ctx.tlc(SPEC, "Gen_Registry", cfg="Gen_" + fl, mode="simulate", num=ctx.pick(14 if fl == "tbtc" else 6, 250 if fl == "tbtc" else 100), depth=100,
                     label="Gen_" + fl, dump_trace=False, timeout=1800)
         beh = ctx.read_emitted(g, "behaviours.ndjson")
-        want = ctx.pick(200, 2500)
-        if len(beh) < ctx.pick(150, 1500):
+        want = ctx.pick(120, 2500)
+        if len(beh) < ctx.pick(80, 1500):
             ctx.broken("behaviour generation (%s) produced only %d behaviours" % (fl, len(beh)))
         if len(beh) > want:
             beh = rnd.sample(beh, want)
